@@ -282,6 +282,14 @@ class YieldCounter:
         elif isinstance(e.func, ast.Attribute) and isinstance(e.func.value, ast.Name):
             full = self.prog.resolve_name(self.fn.module, e.func.value.id)
             ci = self.prog.classes.get(full) if full else None
+            if ci is None and isinstance(self.fn.node, (ast.FunctionDef, ast.AsyncFunctionDef)):
+                # a parameter annotated with a class of the repository (ordering: PopulationOrdering): its method
+                a_ = self.fn.node.args
+                ann = next((x.annotation for x in a_.posonlyargs + a_.args + a_.kwonlyargs if x.arg == e.func.value.id and x.annotation is not None), None)
+                nm_ = ann.id if isinstance(ann, ast.Name) else ann.value if isinstance(ann, ast.Constant) and isinstance(ann.value, str) else None
+                if nm_ and nm_.isidentifier():
+                    full = self.prog.resolve_name(self.fn.module, nm_)
+                    ci = self.prog.classes.get(full) if full else None
             if ci is not None:
                 target, off = self.prog.lookup_method(ci, e.func.attr), 1
         elif isinstance(e.func, ast.Name):
